@@ -63,11 +63,15 @@ package layer
 
 // ---- lookup hiding rules ----
 //@ func (n *node) Lookup
-//@   props C07
+//@   props C07,C02
 //@   requires n.fs != nil && out != nil && n.fs.r != nil && n.fs.s != nil
 //@   assume before "ino, err := n.fs.inodeOfID(tn.id)" : tn != nil
 //@   ensures[C07] n.id == n.fs.rootID && (name == estargz.PrefetchLandmark || name == estargz.NoPrefetchLandmark) ==> result0 == nil && result1 == syscall.ENOENT
 //@   ensures[C07] hasPrefix(name, whiteoutPrefix) ==> result0 == nil && result1 == syscall.ENOENT
+// the cached listing answers "no such entry" only for names it does not contain (C02: what Lookup serves agrees with
+// what readdir listed)
+//@   loop 0 invariant[C07,C02] rangeslice == n.ents && (!found ==> (forall j int :: 0 <= j && j <= rangeidx ==> rangeslice[j].Name != name))
+//@   assert[C07,C02] before "return nil, syscall.ENOENT"#3 : forall j int :: 0 <= j && j < len(n.ents) ==> n.ents[j].Name != name
 
 // ---- listing rules ----
 // ForeachChild callback of readdir: "." / "..", landmarks in the root and every ".wh."-prefixed name are never listed as
